@@ -1608,7 +1608,7 @@ func rightmostReduction(v ssa.Value, seen map[ssa.Value]bool) bool {
 				}
 				bx, _ := fieldChain(xs.(*ssa.UnOp).X)
 				bw, _ := fieldChain(ws.(*ssa.UnOp).X)
-				if bx != bw {
+				if bx != bw && !sameSSAExpr(bx, bw, 0) {
 					continue
 				}
 				// node = Nodes[len(Nodes)-1]
@@ -1617,7 +1617,7 @@ func rightmostReduction(v ssa.Value, seen map[ssa.Value]bool) bool {
 						if ib, ok := ia.Index.(*ssa.BinOp); ok && ib.Op == token.SUB {
 							if c, isC := constInt(ib.Y); isC && c == 1 {
 								if call, ok := ib.X.(*ssa.Call); ok {
-									if b2, ok := call.Call.Value.(*ssa.Builtin); ok && b2.Name() == "len" {
+									if b2, ok := call.Call.Value.(*ssa.Builtin); ok && b2.Name() == "len" && (call.Call.Args[0] == ia.X || sameSSAExpr(call.Call.Args[0], ia.X, 0)) {
 										if ok, _ := onlyEmptyLayerGuard(x.Block()); ok {
 											return true
 										}
